@@ -109,7 +109,8 @@ chk("C08", "exploration",
 
 chk("C09", "exploration",
     "2..8 threads x random operation mixes on one thread-shared cache with seeded yield points, under ThreadSanitizer (race reports and lock-order inversions are violations) and ASan; histories recorded at the "
-    "client boundary with unique values are checked offline: sound stale/torn/foreign-read conditions on long histories, full linearizability (WGL search with memoisation) on short ones, progress watchdog for completion.",
+    "client boundary with unique values are checked offline: sound stale/torn/foreign-read conditions on long histories, full linearizability (WGL search with memoisation) on short ones, progress watchdog for completion; bounded progress (10 s) of "
+    "store/rise/remove under a flood of 8 readers on one hot key, both backends. Found and fixed: reader-preferring locks starving writers.",
     "Race freedom is claimed for the operations and interleavings TSan observed (happens-before generalises over schedules, not over code paths); linearizability only for the short histories searched.",
     "ThreadSanitizer + offline linearizability checker over recorded histories", "DESIGN.md section 4 / C09", "cache_conc")
 
@@ -130,7 +131,8 @@ chk("C20", "exploration",
 chk("C05", "exploration",
     "For 16 key materials (six HMACs, AES-128/192/256 with split, combined and derived keys) genuine cookies built by the real encryptors load exactly while unexpired (to the deadline second) and every tampering of "
     "the decoded cipher text (all single-bit flips for short ones, all truncations, extensions, block swaps, splices, MAC transplants, foreign keys/algorithms, arbitrary strings) is rejected with the cookie cleared; "
-    "every successful load returns a recorded save; necessary conditions for confidentiality are checked on the encrypting back ends; ASan/UBSan, memcheck in thorough.",
+    "every successful load returns a recorded save; pairs of session_pool objects configured from JSON that differ in one hex digit of one configured key must refuse each other's cookies; necessary conditions for "
+    "confidentiality are checked on the encrypting back ends; ASan/UBSan, memcheck in thorough.",
     "Confidentiality proper is a hyperproperty and only necessary conditions are observed; forging resistance is judged on the tampering classes generated, not cryptographically.",
     "runtime monitor: provenance oracle over generated and tampered cookies under a virtual clock, ASan/UBSan/memcheck", "DESIGN.md section 4 / C05", "sess_mon")
 
@@ -144,7 +146,8 @@ chk("C06", "exploration",
 chk("C18", "fault_enumeration",
     "The write() sequence of a file-backed session save is recorded through a link-time shim; every prefix of it, every byte prefix of the data area, subsets of touched 512-byte sectors, and real child-process crashes "
     "after exactly k bytes, on top of absent/shorter/equal/longer previous files, are each followed by the real load(): the result is 'no session' (file unlinked) or a complete earlier/in-flight payload with a deadline of a save "
-    "that is not past; gc() is compared with a directory model (never removes a live session or a foreign file, removes expired/unreadable ones).",
+    "that is not past (payloads up to 70 KB); gc() is compared with a directory model (never removes a live session or a foreign file, removes expired/unreadable ones); concurrent part (fstore_conc): owners against gc/loader "
+    "threads and processes, pre-forked multi-threaded workers, a worker leaving, a worker killed inside save(), for mutex / process-shared mutex / fcntl locking. Found and fixed: false EDEADLK, shared mutexes destroyed by a leaving worker, lock left by a killed worker.",
     "Header write atomic (as the property states); sector model as described; CRC-32 collisions would be genuine.",
     "fault injection at write() (real kills + synthesized crash states) with the real loader as oracle, ASan/UBSan", "DESIGN.md section 4 / C18", "fstore_mon")
 
@@ -152,8 +155,10 @@ chk("C17", "exploration",
     "For each reactor {epoll, poll, select}: one loop thread and 1..8 producers posting handlers, arming/cancelling timers and descriptor waits, closing devices with pending waits; deadline_timer/stream_socket objects "
     "raced on the loop thread (incl. cancel of a timer whose handler is already queued while new timers are armed); cppcms::thread_pool with posting/cancelling threads and throwing jobs; every handler has a unique id and an "
     "offline checker requires exactly one run on the loop thread with the allowed code and not before the deadline; lost handlers are decided by FIFO sentinels, not timeouts; ThreadSanitizer, ASan and plain builds with "
-    "seeded yield points. Found and fixed: descriptor requests overtaking queued ones (lost handler / spurious canceled); cancel of a just-expired timer cancelling an unrelated timer with a reused id.",
-    "Caller contract (one pending wait per direction and descriptor, objects used by one thread, raw timer ids cancelled only before they can have fired) is respected by the workload; stop() racing with post() only at-most-once.",
+    "seeded yield points; single-threaded scenarios for several waits of one kind on a descriptor and for a descriptor number reused inside a handler; a producer closing a descriptor with a wait pending and arming the "
+    "socket that takes its number; waits whose event has happened get 10 s before the final clean-up may cancel them. Found and fixed: descriptor requests overtaking queued ones, cancel of a just-expired timer hitting a "
+    "reused id, a second wait of one kind dropping the first handler, a cancelled wait receiving the events of the descriptor that reused its number (in-loop and cross-thread).",
+    "Caller contract (objects used by one thread at a time, raw timer ids cancelled only before they can have fired) is respected by the workload; the close-and-reuse action is not run under ThreadSanitizer (it reports close() against the queued epoll_ctl); stop() racing with post() only at-most-once.",
     "ThreadSanitizer + offline exactly-once checker over unique-id event logs with ordering sentinels", "DESIGN.md section 4 / C17", "aio_mon")
 
 ENGINES = [
@@ -168,6 +173,7 @@ ENGINES = [
     dict(name="sess_mon", path="harness/sess_mon.cpp", serves_properties=["C05"], kind_free_text="in-process cookie tampering monitor"),
     dict(name="sess_hist", path="harness/sess_hist.cpp", serves_properties=["C06"], kind_free_text="in-process session history monitor with browser/adversary simulation and model"),
     dict(name="fstore_mon", path="harness/fstore_mon.cpp", serves_properties=["C18"], kind_free_text="crash-point enumerator for session_file_storage with write()/open() shims"),
+    dict(name="fstore_conc", path="harness/fstore_conc.cpp", serves_properties=["C18"], kind_free_text="concurrent file-storage monitor: threads and forked worker processes, three lock modes, delayed unlink()/write() shims (asan and tsan flavors)"),
     dict(name="aio_mon", path="harness/aio_mon.cpp", serves_properties=["C17"], kind_free_text="multi-threaded event-loop / worker-pool monitor (tsan, asan, plain flavors)"),
     dict(name="vsrv", path="harness/vsrv.cpp", serves_properties=["C01", "C02", "C03", "C12", "C13"], kind_free_text="real cppcms::service (http+scgi+fastcgi) with monitor apps, readv/writev schedule shims, event log; python protocol clients in vlib/proto.py, vlib/srv.py"),
     dict(name="netcache_mon", path="harness/netcache_mon.cpp", serves_properties=["C10"], kind_free_text="in-process network-cache monitor (servers + clients on loopback)"),
